@@ -28,5 +28,8 @@ def run(ctx, crate):
     # last update of a finished bar was painted, i.e. never swallowed by the rate limiter
     D.rule_finished_draws_forced(ctx, crate)
     D.rule_counted_newline_row_followed(ctx, crate)
+    # "clears remove all of their rows and nothing else": a suspend wipes the region through MultiState::clear (zombie rows handed over)
+    from .c03 import rule_suspend_protocol
+    rule_suspend_protocol(ctx, crate)
     D.rule_text_not_counted(ctx, crate)
     D.rule_draw_order(ctx, crate)
